@@ -222,7 +222,7 @@ def hash_none_stream(ctx):
 def run(ctx):
     rng = ctx.rng
     from props import cli_proc
-    cli_proc.stream(ctx, ['C01-header', 'C01-whole'])
+    cli_proc.stream(ctx, ['C01-header', 'C01-whole', 'C01-header-efile', 'C01-whole-efile', 'C01-header-efile1', 'C01-whole-efile1'])
     from props import toolrun_lib
     toolrun_lib.stream(ctx)
     hash_none_stream(ctx)
